@@ -11,29 +11,63 @@ func vFee(site string) string {
 	return ""
 }
 
+
+const vInvalidAnywhere = "\xf8\xf9\xfa\xfb\xfc\xfd\xfe\xff"
+
+// vTxt: a text field of at most 16 bytes (the JSON model is structural, so longer strings add
+// nothing; the U+FFFD coercion is modelled for strings of up to 12 bytes)
+func vTxt(site string) string {
+	s := vNondetAtom(site)
+	vAssume(len(s) <= 16)
+	return s
+}
+
+// vClean: none of the strings contains a byte 0xF8..0xFF (bytes that are invalid in any UTF-8
+// context; encoding/json and amino-JSON write each of them as U+FFFD)
+func vClean(ss ...string) bool {
+	ok := true
+	for _, s := range ss {
+		ok = vAll(ok, vNoBytesIn(s, 0, 1<<20, vInvalidAnywhere))
+	}
+	return ok
+}
+
+// vDistinctSignBytes asserts injectivity under two labels, so that the known collision class
+// (text fields with bytes that are not valid UTF-8) is told apart from any other collision.
+func vDistinctSignBytes(b1, b2 []byte, clean bool, label, labelInvalid string) {
+	eq := vBytesEqual(b1, b2)
+	if clean {
+		vCheck(!eq, label)
+	} else {
+		vCheck(!eq, labelInvalid)
+	}
+}
+
 func vHarnessSignBytesCreateTopic() {
-	m1 := &MsgCreateTopicRequest{TopicName: vNondetAtom("t1"), Description: vNondetAtom("d1"), OwnerAddress: vNondetAddr("o1")}
-	m2 := &MsgCreateTopicRequest{TopicName: vNondetAtom("t2"), Description: vNondetAtom("d2"), OwnerAddress: vNondetAddr("o2")}
+	m1 := &MsgCreateTopicRequest{TopicName: vTxt("t1"), Description: vTxt("d1"), OwnerAddress: vNondetAddr("o1")}
+	m2 := &MsgCreateTopicRequest{TopicName: vTxt("t2"), Description: vTxt("d2"), OwnerAddress: vNondetAddr("o2")}
 	vAssume(m1.ValidateBasic() == nil)
 	vAssume(m2.ValidateBasic() == nil)
 	vAssume(vAny(m1.TopicName != m2.TopicName, m1.Description != m2.Description, m1.OwnerAddress != m2.OwnerAddress))
 	vCover("two different create-topic messages")
-	vCheck(!vBytesEqual(m1.GetSignBytes(), m2.GetSignBytes()), "C14: different CreateTopic messages have different sign bytes")
+	vDistinctSignBytes(m1.GetSignBytes(), m2.GetSignBytes(), vClean(m1.Description, m2.Description),
+		"C14: different CreateTopic messages have different sign bytes", "C14: CreateTopic messages that differ only in bytes that are not valid UTF-8 have different legacy sign bytes")
 }
 
 func vHarnessSignBytesAddWriter() {
-	m1 := &MsgAddWriterRequest{TopicName: vNondetAtom("t1"), Moniker: vNondetAtom("m1"), Description: vNondetAtom("d1"), WriterAddress: vNondetAddr("w1"), OwnerAddress: vNondetAddr("o1")}
-	m2 := &MsgAddWriterRequest{TopicName: vNondetAtom("t2"), Moniker: vNondetAtom("m2"), Description: vNondetAtom("d2"), WriterAddress: vNondetAddr("w2"), OwnerAddress: vNondetAddr("o2")}
+	m1 := &MsgAddWriterRequest{TopicName: vTxt("t1"), Moniker: vTxt("m1"), Description: vTxt("d1"), WriterAddress: vNondetAddr("w1"), OwnerAddress: vNondetAddr("o1")}
+	m2 := &MsgAddWriterRequest{TopicName: vTxt("t2"), Moniker: vTxt("m2"), Description: vTxt("d2"), WriterAddress: vNondetAddr("w2"), OwnerAddress: vNondetAddr("o2")}
 	vAssume(m1.ValidateBasic() == nil)
 	vAssume(m2.ValidateBasic() == nil)
 	vAssume(vAny(m1.TopicName != m2.TopicName, m1.Moniker != m2.Moniker, m1.Description != m2.Description, m1.WriterAddress != m2.WriterAddress, m1.OwnerAddress != m2.OwnerAddress))
 	vCover("two different add-writer messages")
-	vCheck(!vBytesEqual(m1.GetSignBytes(), m2.GetSignBytes()), "C14: different AddWriter messages have different sign bytes")
+	vDistinctSignBytes(m1.GetSignBytes(), m2.GetSignBytes(), vClean(m1.Description, m2.Description),
+		"C14: different AddWriter messages have different sign bytes", "C14: AddWriter messages that differ only in bytes that are not valid UTF-8 have different legacy sign bytes")
 }
 
 func vHarnessSignBytesDeleteWriter() {
-	m1 := &MsgDeleteWriterRequest{TopicName: vNondetAtom("t1"), WriterAddress: vNondetAddr("w1"), OwnerAddress: vNondetAddr("o1")}
-	m2 := &MsgDeleteWriterRequest{TopicName: vNondetAtom("t2"), WriterAddress: vNondetAddr("w2"), OwnerAddress: vNondetAddr("o2")}
+	m1 := &MsgDeleteWriterRequest{TopicName: vTxt("t1"), WriterAddress: vNondetAddr("w1"), OwnerAddress: vNondetAddr("o1")}
+	m2 := &MsgDeleteWriterRequest{TopicName: vTxt("t2"), WriterAddress: vNondetAddr("w2"), OwnerAddress: vNondetAddr("o2")}
 	vAssume(m1.ValidateBasic() == nil)
 	vAssume(m2.ValidateBasic() == nil)
 	vAssume(vAny(m1.TopicName != m2.TopicName, m1.WriterAddress != m2.WriterAddress, m1.OwnerAddress != m2.OwnerAddress))
@@ -42,8 +76,8 @@ func vHarnessSignBytesDeleteWriter() {
 }
 
 func vHarnessSignBytesAddRecord() {
-	m1 := &MsgAddRecordRequest{TopicName: vNondetAtom("t1"), Key: vNondetBytes("k1", 70), Value: vNondetBytes("v1", 80), WriterAddress: vNondetAddr("w1"), OwnerAddress: vNondetAddr("o1"), FeePayerAddress: vFee("f1")}
-	m2 := &MsgAddRecordRequest{TopicName: vNondetAtom("t2"), Key: vNondetBytes("k2", 70), Value: vNondetBytes("v2", 80), WriterAddress: vNondetAddr("w2"), OwnerAddress: vNondetAddr("o2"), FeePayerAddress: vFee("f2")}
+	m1 := &MsgAddRecordRequest{TopicName: vTxt("t1"), Key: vNondetBytes("k1", 70), Value: vNondetBytes("v1", 80), WriterAddress: vNondetAddr("w1"), OwnerAddress: vNondetAddr("o1"), FeePayerAddress: vFee("f1")}
+	m2 := &MsgAddRecordRequest{TopicName: vTxt("t2"), Key: vNondetBytes("k2", 70), Value: vNondetBytes("v2", 80), WriterAddress: vNondetAddr("w2"), OwnerAddress: vNondetAddr("o2"), FeePayerAddress: vFee("f2")}
 	vAssume(m1.ValidateBasic() == nil)
 	vAssume(m2.ValidateBasic() == nil)
 	vAssume(vAny(m1.TopicName != m2.TopicName, !vBytesEqual(m1.Key, m2.Key), !vBytesEqual(m1.Value, m2.Value), m1.WriterAddress != m2.WriterAddress, m1.OwnerAddress != m2.OwnerAddress, m1.FeePayerAddress != m2.FeePayerAddress))
